@@ -65,6 +65,34 @@ theorem print_shape (f : Bool) (e l r : Expr) (op : BinOp) (b : Bool) (vm : Opti
       l.print f ++ [32] ++ op.text ++ (if b then bs " bool" else []) ++ matchingText vm ++ [32] ++ r.print f := by
   refine ⟨?_, ?_, ?_⟩ <;> simp [Expr.print]
 
+
+/-! ### witnesses of finding F13 on the model (unrepaired printer `fixInf = false`) -/
+
+theorem pinf_flags : F64Q.F64.pinf.isNaN = false ∧ F64Q.F64.pinf.isInf = true ∧ F64Q.F64.pinf.neg? = false := by
+  refine ⟨?_, ?_, ?_⟩ <;> decide
+
+/-- F13: the unrepaired printer renders the literal +Inf with a plus sign, the repaired one without. -/
+theorem inf_literal_print_witness :
+    numText false F64Q.F64.pinf false = bs "+Inf" ∧ numText true F64Q.F64.pinf false = bs "Inf" := by
+  obtain ⟨h1, h2, h3⟩ := pinf_flags
+  constructor <;> simp [numText, fmtFloatF, h1, h2, h3]
+
+/-- … so `Inf ^ x` prints as `+Inf ^ x`; the parser reads the leading `+` as a unary operator, which
+    binds looser than `^` (`parseOperand` parses its operand with `minPrec = 6`), i.e. over the whole power. -/
+theorem inf_pow_print_witness (r : Expr) :
+    (Expr.bin .pow false none (.num F64Q.F64.pinf false) r).print false =
+      bs "+Inf" ++ [32] ++ bs "^" ++ [32] ++ r.print false := by
+  obtain ⟨h1, h2, h3⟩ := pinf_flags
+  simp [Expr.print, numText, fmtFloatF, h1, h2, h3, matchingText, BinOp.text]
+
+/-- A bare metric name prints as itself: the implicit `__name__` matcher is hidden. -/
+theorem bare_selector_print (f : Bool) (n : Bytes) (hn : n ≠ []) :
+    (Expr.vs n [⟨.eq, metricNameB, n⟩] 0 .nil .none .none).print f = n := by
+  have h2 : n.isEmpty = false := by cases n <;> simp_all
+  simp [Expr.print, selectorCoreText, atText, extText, offsetText, Expr.isNil, sortStrings, h2]
+
+example : ([102, 111, 111] : Bytes) ≠ [] := by simp
+
 /-- Equality of trees modulo the order of matchers inside one selector. -/
 def TreeEq (a b : Expr) : Prop :=
   (readWhole (sx a)).map SExp.canon = (readWhole (sx b)).map SExp.canon
